@@ -385,6 +385,7 @@ func c16Check(text string, cut, failAt int) string {
 				err = fmt.Errorf("PANIC: %v", r)
 			}
 		}()
+		defer run.Track("ReadJson", text)()
 		cur, err = xsel.ReadJson(&chunkReader{data: []byte(text), cut: cut, failAt: failAt})
 	}()
 	if err != nil && strings.HasPrefix(err.Error(), "PANIC") {
